@@ -5,13 +5,14 @@ PID = "C07"
 MODULES = ["Prelude", "C07_Float", "C07_Model", "C07_Spec", "C07_Check"]
 PROPS_MODULE = "C07_Properties"
 THEOREMS = ["C07_floor", "C07_cap", "C07_step_safe", "C07_no_growth_when_over", "C07_burst", "C07_history",
-            "C07_overlap", "C07_multi_history"]
+            "C07_overlap", "C07_multi_history", "C07_limit_change_overlap"]
 EVAL = "C07_Check.eval"
 CLAUSES = ["agree", "answered", "floor", "cap", "step_safe", "no_growth", "burst", "over_commit", "count", "burst_mono"]
 RULE = ("calc cases: distinct input tuples under the global-allocate strategy that were answered (no panic); "
         "history cases: distinct histories in which at some point at least two instances are on record for a schema and "
         "which contain a limit or item-type change, an instance removal, a concurrent batch, several schemas, a "
-        "count-strategy or untyped item, a refused report, or a state whose sum exceeds the limit")
+        "count-strategy or untyped item, a refused report, or a state whose sum exceeds the limit; or histories in "
+        "which a report is parked before the per-upstream lock while a schema change is handled")
 TRUSTED_BASE = [
     "Coq 8.16.1 kernel + vm_compute (case files); Flocq 4.1.0 (IEEE754.BinarySingleNaN at 53/1024) as the definition of binary64",
     "hand-written model C07_Model.v / C07_Float.v tied to /repo by the differential run of this check "
@@ -21,6 +22,9 @@ TRUSTED_BASE = [
 ]
 ASSUMPTIONS = [
     "honest instances: a report carries as current quota the quota the server last answered to that instance (0 for a new one)",
+    "C07_limit_change_overlap: a report and an UpstreamCluster event of one upstream are serialised by the same "
+    "mutex and the report reads limit and sums inside it; checked by parking a real report right after its lookup "
+    "of the state condition (store wrapper) while the real UpstreamConditionHandler runs, then resuming it",
     "C07_overlap: reports of one upstream are serialised by the per-upstream mutex and the allocated sum is re-read inside it "
     "(local store returns shared pointers), so concurrent reports behave as some sequential order; checked on concurrent batches "
     "by searching that order",
@@ -159,6 +163,18 @@ def corpus():
                    {"op": "reports", "rs": [rep(1, [it(0, "max", 5, 100), it(1, "bucket", 5, 50)])]},
                    {"op": "reports", "rs": [rep(2, [it(0, "max", 5, 100), it(1, "bucket", 5, 50)])]},
                ]})
+    # a report parked between its lookup of the upstream state and the per-upstream lock while the limit is
+    # lowered 100 -> 20: afterwards limit 20 is in force (later answers <= 20, a newcomer is held at 1)
+    grow = [{"op": "reports", "rs": [rep(1, [it(0, "max", 0, 0)])]}] + \
+           [{"op": "reports", "rs": [rep(1, [it(0, "max", 200, 150)])]} for _ in range(5)]
+    cs.append({"kind": "hist", "extra": 0, "schemas": [{"s": 0, "typ": "max", "limit": 100, "burst": 0}], "steps": grow + [
+        {"op": "overlap", "rs": [rep(1, [it(0, "max", 200, 150)])], "s": 0, "typ": "max", "limit": 20, "burst": 0},
+        {"op": "reports", "rs": [rep(1, [it(0, "max", 200, 150)])]},
+        {"op": "reports", "rs": [rep(2, [it(0, "max", 0, 0)])]},
+        {"op": "overlap", "rs": [rep(2, [it(0, "max", 5, 100)])], "s": 0, "typ": "bucket", "limit": 300, "burst": 30},
+        {"op": "reports", "rs": [rep(1, [it(0, "max", 5, 100)])]},
+        {"op": "reports", "rs": [rep(1, [it(0, "bucket", 5, 100)])]},
+        {"op": "reports", "rs": [rep(2, [it(0, "bucket", 5, 100)])]}]})
     return [upgrade(c) for c in cs]
 
 
@@ -346,6 +362,44 @@ def gen_multi(rng, conc):
     return {"kind": "hist", "extra": rng.choice([0, 0, 6, 10, 50]), "schemas": schemas, "steps": steps}
 
 
+def gen_overlap(rng):
+    """Instances grow under a limit; then a report is parked after its lookup of the upstream state while the
+    schema change (lower / higher limit, burst, sometimes the item type) is handled; then plain reports follow."""
+    typ = rng.choice(["max", "max", "bucket"])
+    limit = rng.choice([50, 100, 100, 1000, 10000])
+    burst = rng.choice([0, 10, limit]) if typ == "bucket" else 0
+    ids = list(range(1, rng.choice([1, 2, 2, 3]) + 1))
+    schemas = [{"s": 0, "typ": typ, "limit": limit, "burst": burst}]
+    second = rng.chance(1, 4)
+    if second:
+        schemas.append({"s": 1, "typ": "bucket", "limit": 500, "burst": 50})
+
+    def report(i, t, level, used):
+        items = [{"s": 0, "typ": t, "count": False, "used": used, "level": level}]
+        if second:
+            items.append({"s": 1, "typ": "bucket", "count": False, "used": 5, "level": rng.choice(H_LEVELS)})
+        return {"i": i, "items": items}
+
+    steps = []
+    for _ in range(rng.randint(4, 9)):
+        for i in ids:
+            steps.append({"op": "reports", "rs": [report(i, typ, rng.choice([100, 100, 150, 60]), rng.choice([0, limit, 2 * limit]))]})
+    for _ in range(rng.randint(1, 2)):
+        f = rng.choice([(1, 5), (1, 5), (1, 2), (1, 10), (3, 1), (1, 1)])
+        nlimit = max(1, limit * f[0] // f[1])
+        ntyp = other(typ) if rng.chance(1, 6) else typ
+        nburst = rng.choice([0, 7, nlimit]) if ntyp == "bucket" else 0
+        i = rng.choice(ids)
+        steps.append({"op": "overlap", "rs": [report(i, rng.choice([typ, typ, typ, ntyp, "none"]), rng.choice([100, 150, 0, 5]),
+                                              rng.choice([0, limit, 2 * limit]))],
+                      "s": 0, "typ": ntyp, "limit": nlimit, "burst": nburst})
+        typ, limit = ntyp, nlimit
+        for _ in range(rng.randint(2, 5)):
+            i = rng.choice(ids + [len(ids) + 1])
+            steps.append({"op": "reports", "rs": [report(i, typ, rng.choice([100, 150, 150, 0, 40]), rng.choice([0, limit, 2 * limit]))]})
+    return {"kind": "hist", "extra": rng.choice([0, 0, 10]), "schemas": schemas, "steps": steps}
+
+
 def generate(rng, tier, scale=1):
     ng, nr, nl, nh, nc, nk, nm = ((1500, 700, 400, 80, 25, 25, 80) if tier == "quick"
                                   else (30000, 15000, 8000, 1500, 500, 400, 1500))
@@ -364,6 +418,8 @@ def generate(rng, tier, scale=1):
         hists.append(gen_contention(rng))
     for k in range(nm * scale):
         hists.append(gen_multi(rng, k % 3 == 2))
+    for k in range((nm // 3) * scale):
+        hists.append(gen_overlap(rng))
     hists = [upgrade(h) for h in hists]
     # spread the (expensive) histories evenly over the stream so that the Coq shards are balanced
     hists = rng.shuffle(hists)
@@ -424,7 +480,7 @@ def coq_hist(case, obs):
     tr = []
     for st, ob in zip(case["steps"], steps):
         up = {so["s"]: so["uplevel"] for so in ob["schemas"]}
-        if st["op"] == "reports":
+        if st["op"] in ("reports", "overlap"):
             rs = []
             for r, res in zip(st["rs"], ob["reports"]):
                 items = clist(["{| it_s := %s; it_typ := %s; it_count := %s; it_used := %s; it_level := %s; it_up := %s |}" %
@@ -436,7 +492,10 @@ def coq_hist(case, obs):
                     rr = "RErr" if res["res"] == "err" else "RPanic"
                 rs.append("{| r_i := %s; r_items := %s; r_cur := %s; r_res := %s |}" %
                           (cZ(r["i"]), items, clist([cZ(x) for x in res["cur"]]), rr))
-            o = "(MReports %s)" % clist(rs)
+            if st["op"] == "overlap":
+                o = "(MOverlap %s %s %s %s %s)" % (rs[0], cZ(st["s"]), ctyp(st["typ"]), cZ(st["limit"]), cZ(st["burst"]))
+            else:
+                o = "(MReports %s)" % clist(rs)
         elif st["op"] == "setschema":
             o = "(MSet %s %s %s %s)" % (cZ(st["s"]), ctyp(st["typ"]), cZ(st["limit"]), cZ(st["burst"]))
         else:
@@ -457,7 +516,9 @@ def _hist_features(case, obs):
     cfg = {sc["s"]: dict(sc) for sc in case["schemas"]}
     two = False
     for st, ob in zip(case["steps"], steps):
-        if st["op"] == "setschema":
+        if st["op"] == "overlap":
+            feats.add("overlap-limit-change")
+        if st["op"] in ("setschema", "overlap"):
             if cfg[st["s"]]["typ"] != st["typ"]:
                 feats.add("type-change")
             cfg[st["s"]] = {"s": st["s"], "typ": st["typ"], "limit": st["limit"], "burst": st["burst"]}
@@ -492,7 +553,7 @@ def nontrivial_key(case, obs):
         return ("c",) + tuple(case[k] for k in ("typ", "total", "gburst", "allocated", "uplevel", "current", "used",
                                                  "level", "clients"))
     two, feats = _hist_features(case, obs)
-    if two and feats:
+    if (two or "overlap-limit-change" in feats) and feats:
         return ("h", repr(case))
     return None
 
